@@ -440,6 +440,58 @@ def r02_14(ctx: Ctx, rule: str = "R02.14") -> None:
               "(`c`, `a`, writeall) although the link's text is all that is stored", construct="readlink follows the link")
 
 
+def r02_15(ctx: Ctx, rule: str = "R02.15") -> None:
+    """`arcname` is optional, and absent means None: the empty string is a NAME (the root of the archive: `writeall(tree, arcname="")`
+    stores the children of the tree at the top level).  Every test of the bare parameter in the write functions is a None test; a
+    truthiness test takes "" for absent and stores the children under their source paths."""
+    n = 0
+    for name in ("writeall", "_writeall", "write", "_make_file_info"):
+        try:
+            f = shared.szf(ctx, name)
+        except Exception:
+            continue
+        if "arcname" not in f.params:
+            continue
+        tests = [x.test for x in walk(f.node) if isinstance(x, (ast.If, ast.IfExp, ast.While))] + [x for x in walk(f.node) if isinstance(x, ast.Assert)]
+        for t in tests:
+            t = t.test if isinstance(t, ast.Assert) else t
+            for a, pol in q.atoms(t, True):
+                if isinstance(a, ast.Name) and a.id == "arcname" and not any(isinstance(d, ast.Assign) and any(isinstance(tt, ast.Name) and tt.id == "arcname" for tt in d.targets)
+                                                                             and q.dominates(f, d, t) for d in walk(f.node)):
+                    n += 1
+                    ctx.fail(rule, f, t, f"`{norm(t)}` tests the optional parameter `arcname` for truth: the empty string (a name: the root of the archive, as in "
+                             "`writeall(tree, arcname='')`) is taken for 'no arcname given', and the members are stored under the path of their source instead of under the name "
+                             "that was asked for", construct=f"{name}: truthiness test of arcname")
+                nt = q.is_none_test(a)
+                if nt is not None and isinstance(nt[0], ast.Name) and nt[0].id == "arcname":
+                    n += 1
+                    ctx.ok(rule, f"{f.qname}: `{norm(a)}`")
+    ctx.floor(rule, n, 3, "tests of the optional arcname parameter in the write functions")
+
+
+def r02_16(ctx: Ctx, rule: str = "R02.16") -> None:
+    """the decoder of a folder is set up by whichever member of the folder comes FIRST - also one of zero bytes: every path through
+    Worker.decompress that returns normally has called `folder.get_decompressor(compressed_size)` (the first member's call hands the
+    packed size to the decoder chain) and has passed the end-of-folder test (`is_finished`, behind which the folder CRC is compared).
+    An early return for `size == 0` leaves the setup to the next member, which does not know the packed size: a tree whose first file is
+    empty ('pkg/__init__.py' before 'pkg/mod.py') does not come back."""
+    f = ctx.prog.func("py7zr", "Worker.decompress")
+    cfg = cfg_of(f.node)
+    setup = [q.node_for(f, c) for c in q.calls(f) if attr_tail(c) == "get_decompressor"]
+    fin = [t for t in cfg.nodes if t.kind == "test" and any(isinstance(x, ast.Call) and attr_tail(x) == "is_finished" for x in ast.walk(t.ast))]
+    ctx.floor(rule, len(setup), 1, "get_decompressor call in Worker.decompress")
+    ctx.floor(rule, len(fin), 1, "is_finished test in Worker.decompress")
+    ok1 = cfg.every_path_to_exit_passes(cfg.entry, setup)
+    ok2 = cfg.every_path_to_exit_passes(cfg.entry, fin)
+    ctx.check(ok1, rule, f, setup[0].ast, "every member, whatever its size, passes the folder's decoder set-up",
+              "some path through Worker.decompress returns without `folder.get_decompressor(compressed_size)`: when that member is the first of its folder (a file of zero bytes in front "
+              "of the others) the decoder is created by the next member, without the packed size - extractall raises TypeError on an archive py7zr wrote itself",
+              construct="decompress returns before the decoder set-up")
+    ctx.check(ok2, rule, f, fin[0].ast, "every member passes the end-of-folder test",
+              "some path through Worker.decompress returns without the `is_finished` test behind which the folder CRC is compared: when the member that ends the folder takes that path "
+              "the folder's CRC is never looked at", construct="decompress returns before the end-of-folder test")
+
+
 def r02_12(ctx: Ctx, rule: str = "R02.12") -> None:
     """a link of the tree is re-created whenever it leads to a place inside the destination AS THE SYSTEM FOLLOWS IT.  The textual check
     (is_path_valid -> canonical_path) collapses 'name/..' without asking whether `name` is a link: with s -> a/b/c/d the valid link
@@ -488,6 +540,8 @@ def run(ctx: Ctx) -> None:
     r02_11(ctx)
     r02_12(ctx)
     r02_14(ctx)
+    r02_15(ctx)
+    r02_16(ctx)
     r02_13(ctx)
     r02_10(ctx)
     r02_6(ctx)
